@@ -5,8 +5,25 @@ import sys
 import traceback
 
 
+class _FormatAndDrop(logging.Handler):
+    """what any real handler does with a record - format it - and nothing else"""
+    def emit(self, record):
+        try:
+            self.format(record)
+        except Exception:
+            pass
+
+
 def main(handlers):
-    logging.disable(logging.CRITICAL)
+    import os
+    if os.environ.get("VERIF_LOG_DEBUG"):
+        # the same cases with diagnostics switched on: every logger at DEBUG, every record formatted
+        logging.raiseExceptions = False
+        root = logging.getLogger()
+        root.setLevel(logging.DEBUG)
+        root.addHandler(_FormatAndDrop())
+    else:
+        logging.disable(logging.CRITICAL)
     pid, cin, cout = sys.argv[1], sys.argv[2], sys.argv[3]
     cases = json.load(open(cin))
     run = handlers[pid]
